@@ -663,9 +663,10 @@ func c08Exec(op []string) string {
 	var err error
 	prefix := ""
 	if op[0] == "uy" || op[0] == "ut" {
-		if key != "json" || cfg.Int("fa", 0) != 0 {
+		if key != "json" {
 			return "bad-op"
 		}
+		viaReader := cfg.Int("fa", 0) == 1 // uy / ut: fa=1 = through UnmarshalYamlReader / UnmarshalTomlReader
 		tree := p.parseTree()
 		if p.pos != len(p.toks) {
 			return "bad-op"
@@ -697,9 +698,14 @@ func c08Exec(op []string) string {
 		if cfg.Int("fs", 0) == 1 {
 			opts = append(opts, WithStringValues())
 		}
-		if op[0] == "uy" {
+		switch {
+		case op[0] == "uy" && viaReader:
+			err = UnmarshalYamlReader(strings.NewReader(text), target.Interface(), opts...)
+		case op[0] == "uy":
 			err = UnmarshalYamlBytes([]byte(text), target.Interface(), opts...)
-		} else {
+		case viaReader:
+			err = UnmarshalTomlReader(strings.NewReader(text), target.Interface(), opts...)
+		default:
 			err = UnmarshalTomlBytes([]byte(text), target.Interface(), opts...)
 		}
 		if cerr != nil {
@@ -1379,6 +1385,9 @@ func c08Gen(r *verifh.Rng) []verifh.Section {
 					if head == "ut" && (strings.Contains(in, "null") || !strings.HasPrefix(in, "{")) {
 						head = "uy"
 					}
+					if r.Chance(1, 3) {
+						cfg2 = "key=json fs=1 fa=1" // through the Reader form
+					}
 					ops = append(ops, head+" "+cfg2+" T"+tb.String()+" I "+in)
 					continue
 				}
@@ -1388,6 +1397,9 @@ func c08Gen(r *verifh.Rng) []verifh.Section {
 					if head == "ut" && (strings.Contains(in, "null") || !strings.HasPrefix(in, "{")) {
 						head = "uy"
 					}
+				}
+				if head != "u" && r.Chance(1, 3) {
+					cfg = "key=json fs=0 fa=1" // through the Reader form
 				}
 				ops = append(ops, head+" "+cfg+" T"+tb.String()+" I "+in)
 			}
